@@ -30,7 +30,7 @@ RULE = (
   "x nvmax sweep; oracle: (A) sleep-enabled model with all trees awake (nvmax default or nv) and (P) plain model with nvmax<nv give the qacc / efc.force / qfrc_constraint of the "
   "plain full solve (5e-4 of the field's scale); (B) trees asleep after forward() have qacc exactly 0 and awake dofs equal the plain solve of the same state (only judged when no "
   "constraint row couples an awake with a sleeping tree); (C) world whose awake dofs exceed nvmax has the NVMAX bit, worlds that fit are judged as (B); "
-  "(H) one Data solved for the sequence all-awake -> subset -> all-awake (-> subset) gives at every step what a fresh Data gives for that active set; "
+  "(H2) a Data with nvmax < nv solved for the complementary active set and then for the subset equals the fresh-Data solve of the subset; (H) one Data solved for the sequence all-awake -> subset -> all-awake (-> subset) gives at every step what a fresh Data gives for that active set; "
   "evaluation = one (run, world); non-trivial = world with >=1 tree asleep and >=1 awake tree that carries constraint rows"
 )
 ASSUMPTIONS = [
@@ -232,23 +232,31 @@ def check(case, rec):
   # ---------------- (B) some islands asleep
   g = np.random.default_rng(case["seed"] + 7)
   asleep = np.full((n, ntree), mjw_sleep.K_AWAKE_VAL, dtype=np.int32)
-  states2 = []
+  asleep_inv = np.full((n, ntree), mjw_sleep.K_AWAKE_VAL, dtype=np.int32)  # the complementary choice (for the capacity history H2)
+  states2, states3 = [], []
   for w in range(n):
     ti = A.tree_island[w] if A.tree_island is not None else np.full(ntree, -1)
     groups = {}
     for t in range(ntree):
       groups.setdefault(("i", int(ti[t])) if ti[t] >= 0 else ("t", t), []).append(t)
-    s2 = dict(states[w])
+    s2, s3 = dict(states[w]), dict(states[w])
     qvel = np.array(s2["qvel"], dtype=np.float64)
+    qvel3 = np.array(s2["qvel"], dtype=np.float64)
     for key in sorted(groups):
       grp = groups[key]
-      if g.uniform() < case["p_sleep"]:
-        for k, t in enumerate(grp):
+      chosen = g.uniform() < case["p_sleep"]
+      for k, t in enumerate(grp):
+        a = int(mp.tree_dofadr[t])
+        if chosen:
           asleep[w, t] = grp[(k + 1) % len(grp)]
-          a = int(mp.tree_dofadr[t])
           qvel[a : a + int(tree_nv[t])] = 0.0
+        else:
+          asleep_inv[w, t] = grp[(k + 1) % len(grp)]
+          qvel3[a : a + int(tree_nv[t])] = 0.0
     s2["qvel"] = qvel
+    s3["qvel"] = qvel3
     states2.append(s2)
+    states3.append(s3)
   if not (asleep >= 0).any():
     rec.cls("B:nothing-asleep")
     return
@@ -305,6 +313,7 @@ def check(case, rec):
           rec.cls("C:bit-without-need")
           continue
         _judge_sleep(rec, mp, "C", C, R2, w, dof_tree, case, nvmax=cap)
+  _reuse_with_capacity(rec, case, ms, m_s, states3, asleep_inv, states2, asleep, need, tree_nv, n, nv, ntree)
 
 
 def _compare_full(rec, tag, X_, R, w, mask, sig, **ctx):
@@ -388,3 +397,32 @@ def _judge_sleep(rec, mjm, tag, S, R2, w, dof_tree, case, nvmax):
   elif idx_s:
     rec.cls(f"{tag}:rows-differ")
   return False
+
+
+def _reuse_with_capacity(rec, case, ms, m_s, states3, asleep_inv, states2, asleep, need, tree_nv, n, nv, ntree):
+  """(H2) a Data whose DOF capacity is below nv, solved first for the complementary active set and then for the subset: the second solve must equal the
+  fresh-Data solve with that capacity (compaction maps of the previous active set must not survive; with nvmax_pad < nv part of them lies beyond the padding)."""
+  if not (asleep_inv >= 0).any():
+    return
+  Binv = _forward(ms, m_s, states3, asleep=asleep_inv)
+  need_inv = np.array([int(tree_nv[Binv.tree_awake[w] == 1].sum()) for w in range(n)])
+  cap = int(max(need.max(), need_inv.max()))
+  if cap >= nv or cap < 1:
+    rec.cls("H2:capacity-not-below-nv")
+    return
+  ref = _forward(ms, m_s, states2, nvmax=cap, asleep=asleep)
+  Hd = _forward(ms, m_s, states3, nvmax=cap, asleep=asleep_inv)
+  Hd.d.overflow.zero_()  # (overflow bits accumulate until the user clears them)
+  Hk = _forward(ms, m_s, states2, asleep=asleep, d=Hd.d)
+  for w in range(n):
+    if (Hk.overflow[w] | ref.overflow[w]) & (_ITER | _CAP | int(OT.NVMAX)):
+      rec.cls("H2:skipped-overflow")
+      continue
+    if not np.array_equal(Hk.tree_awake[w], ref.tree_awake[w]):
+      rec.cls("H2:awake-set-differs")
+      continue
+    rec.ev()
+    rec.cls(f"H2:pad<nv:{16 * (cap // 16 + 1) < nv}")
+    if (ref.tree_awake[w] == 0).any() and int(ref.nefc[w]) > 0:
+      rec.nt(extra=["H2", w])
+    _compare_full(rec, "H2:sub", Hk, ref, w, np.ones(nv, dtype=bool), sig="reuse:capacity", nvmax=cap)
